@@ -39,7 +39,10 @@ RULE = ('history = initial write + 1..6 appends (seeded frames incl. empty '
 COMPONENTS = {
     'real': ['fastparquet *.py from /repo working tree',
              'cencoding/speedups C extensions rebuilt from /repo .c files',
-             'pandas', 'numpy', 'cramjam', 'fsspec AbstractFileSystem base'],
+             'pandas', 'numpy', 'cramjam', 'fsspec AbstractFileSystem base',
+             'a 10% slice of the fault-free histories: the real local '
+             'filesystem (private tmpfs directory) through the library\'s '
+             'default open/mkdirs - byte comparisons but no seam monitors'],
     'stub': ['filesystem -> sim.simfs.SimFS (event log, write-floor and '
              'protected-path monitors, fault plan)',
              'heap contents of result frames -> deterministic poison'],
@@ -125,7 +128,9 @@ def generate(seed, idx, tier):
              else 'write'}
         o.update(gen_wopts(rng, f['nrows'], has_cat, knobs))
         ops.append(o)
+    local = not with_faults and rng.random() < 0.12
     return {'prop': PROP, 'seed': seed, 'idx': idx, 'tier': tier,
+            'local': local,
             'knobs': knobs, 'scheme': scheme, 'shape': shape, 'ops': ops,
             'cat_mode': cat_mode, 'handle': handle,
             'dur_seed': rng.randrange(2 ** 31)}
@@ -168,9 +173,18 @@ def execute(case):
 
     scheme = case['scheme']
     parts = list(case['shape']['parts']) if scheme != 'simple' else []
-    path = SIMPLE if scheme == 'simple' else D.DS
     multi = scheme != 'simple'
-    fs = D.new_fs('posix')
+    fs = D.new_fs('posix', local=case.get('local', False))
+    path = D.ds_path(fs, 'ds.parq' if scheme == 'simple' else 'ds')
+    try:
+        return _execute(case, fs, path, res, cnt, faults, probes, bump,
+                        violation, scheme, parts, multi)
+    finally:
+        D.cleanup(fs)
+
+
+def _execute(case, fs, path, res, cnt, faults, probes, bump, violation,
+             scheme, parts, multi):
     model = D.Model()
     batch_cats = {}      # batch -> {col: labels}
     long_pf = None
@@ -196,12 +210,12 @@ def execute(case):
                 model.add_frame(df, parts)
                 batch_cats[len(model.batches) - 1] = _cats(op['frame'])
                 if case['handle'] == 'long':
-                    long_pf = D.ParquetFile(path, fs=fs)
+                    long_pf = D.open_pf(path, fs)
             elif kind == 'remove':
                 # not judged here (C09's business): only makes part numbers
                 # non-contiguous; the model follows what was removed
                 try:
-                    pf = D.ParquetFile(path, fs=fs)
+                    pf = D.open_pf(path, fs)
                     n = len(pf.row_groups)
                     if n > 1:
                         k = max(1, min(n - 1, int(n * op['frac'])))
@@ -213,14 +227,16 @@ def execute(case):
                                 'uid'].tolist()
                         pf.remove_row_groups([pf.row_groups[i]
                                               for i in idxs],
-                                             open_with=fs.open)
+                                             **({} if D.is_local(fs)
+                                                else {'open_with':
+                                                      fs.open}))
                         gone = set(gone)
                         model.batches = [([u for u in us if u not in gone],
                                           {u: r for u, r in rows.items()
                                            if u not in gone})
                                          for us, rows in model.batches]
                         bump(cnt, 'removals')
-                        long_pf = D.ParquetFile(path, fs=fs) \
+                        long_pf = D.open_pf(path, fs) \
                             if long_pf is not None else None
                 except Exception as e:
                     res['verdict'] = 'discard'
@@ -237,7 +253,7 @@ def execute(case):
                 if multi:
                     try:
                         prot = set(D.referenced_files(
-                            D.ParquetFile(path, fs=fs)))
+                            D.open_pf(path, fs)))
                     except Exception as e:
                         violation('C07/unreadable-before-append',
                                   'step %d: cannot open dataset: %s: %s'
@@ -337,7 +353,7 @@ def execute(case):
                                   '(offset %d) changed' % (si, fstart), si)
                 if long_pf == 'reopen':
                     try:
-                        long_pf = D.ParquetFile(path, fs=fs)
+                        long_pf = D.open_pf(path, fs)
                     except Exception:
                         long_pf = None
             # ---- oracle after every step: fresh open, full read
@@ -378,6 +394,8 @@ def execute(case):
         bump(probes, 'v2_page_histories')
     if case['handle'] == 'long':
         bump(probes, 'long_lived_handle_histories')
+    if D.is_local(fs):
+        bump(probes, 'histories_on_real_local_directory')
     if len(parts) == 2:
         bump(probes, 'two_partition_columns')
     res['digest'] = h.hexdigest() + fs.digest()
